@@ -290,7 +290,7 @@ func (g *Gen) run() {
 	// unused loop specs are contract errors
 	for n := range g.contract.Loops {
 		if n < 1 || n > len(g.loopList) {
-			g.errorf("%s: contract names loop %d but the function has %d loop(s)", g.contract.File, n, len(g.loopList))
+			g.vc.abstract(fmt.Sprintf("contract names loop %d but the function has %d loop(s): those invariants are unused", n, len(g.loopList)))
 		}
 	}
 }
@@ -807,7 +807,10 @@ func (g *Gen) processBlock(b *ssa.BasicBlock) {
 func (g *Gen) enterLoop(li *loopInfo, b *ssa.BasicBlock, h *Heap, reach string) *Heap {
 	if li.spec == nil {
 		if g.contract.File != "" {
-			g.errorf("%s: loop %d of %s has no invariant (add `loop %d invariant true` to state that none is needed)", g.contract.File, li.ordinal, funcKey(g.fn), li.ordinal)
+			// sound default: the loop's write set is havocked and nothing is assumed about it. On the unchanged tree
+			// every loop of a function under contract has a declared invariant (tools/lint_contracts.sh checks it);
+			// a loop added by a later change is over-approximated instead of rejected.
+			g.vc.abstract(fmt.Sprintf("loop %d has no declared invariant: its write set is havocked, invariant true", li.ordinal))
 		}
 		li.spec = &LoopSpec{}
 	}
